@@ -14,7 +14,7 @@ package main
 //                                        claimed keys in claim order
 //        shiftmatch IDX ORD N FT TT      Gateway.ShiftMatchingTreasures without filters (IDX a key/time index)
 //        q IDX ORD FROM LIMIT FT TT VIA  Gateway.GetByIndex (VIA=u) or GetByIndexStream without
-//                                        filters (VIA=s); IDX ∈ key|created|updated|expire|<value type>;
+//                                        filters (VIA=s) or GetByIndexStreamFromMany with one query (VIA=m); IDX ∈ key|created|updated|expire|<value type>;
 //                                        ORD ∈ asc|desc; FT/TT nanoseconds or '-'
 // reply: ok | err                        for set / del
 //        r k1,k2,…  | err | nilnil       for q: the keys exactly in the order the gateway returned them
@@ -181,7 +181,7 @@ func c07GenQuery(rng *rand.Rand, w *bufio.Writer, idx string) {
 			tt = []string{"253402300799000000000", "9223372036854775808", "7258118400000000000", "-62135596800000000000"}[rng.Intn(4)]
 		}
 	}
-	via := []string{"u", "s"}[rng.Intn(2)]
+	via := []string{"u", "s", "m"}[rng.Intn(3)]
 	fmt.Fprintf(w, "q %s %s %d %d %s %s %s\n", idx, ord, from, limit, ft, tt, via)
 }
 
@@ -206,7 +206,7 @@ func c07Gen(rng *rand.Rand, tier string, w *bufio.Writer) {
 	// 7: value index built for one type, asked for another
 	fmt.Fprintln(w, "case 7\nset k1 i64 1 0 0 0\nset k2 i64 2 0 0 0\nq i64 asc 0 0 - - u\nset k3 str 0 0 0 0\nq str asc 0 0 - - u")
 	// 8: windows, paging, ties on a sound index
-	fmt.Fprintln(w, "case 8\nset k1 i64 1 3 0 0\nset k2 i64 2 3 0 0\nset k3 i64 3 5 0 0\nset k4 i64 3 7 0 0\nq created asc 0 0 3 7 u\nq created desc 0 0 3 7 u\nq created asc 1 2 - 8 u\nq created desc 1 1 4 - s\nq created asc 0 0 7 3 u\nq key desc 1 2 - - u\nq expire asc 0 0 - - u")
+	fmt.Fprintln(w, "case 8\nset k1 i64 1 3 0 0\nset k2 i64 2 3 0 0\nset k3 i64 3 5 0 0\nset k4 i64 3 7 0 0\nq created asc 0 0 3 7 u\nq created desc 0 0 3 7 m\nq created asc 0 0 3 7 m\nq created desc 0 0 3 7 u\nq created asc 1 2 - 8 u\nq created desc 1 1 4 - s\nq created asc 0 0 7 3 u\nq key desc 1 2 - - u\nq expire asc 0 0 - - u")
 
 	// 9: sub-second parts decide: records at 3s, 3s+1ns, 3s+999999999ns, 4s; windows on those instants
 	fmt.Fprintln(w, "case 9\nset k1 i64 1 3000000000 0 0\nset k2 i64 2 3000000001 0 0\nset k3 i64 3 3999999999 0 0\nset k4 i64 4 4000000000 0 0\nset k5 i64 5 3000000000 0 0\nq created asc 0 0 3000000001 4000000000 u\nq created desc 0 0 3000000000 3999999999 u\nq created asc 0 0 3000000000 3000000001 s\nq created desc 0 0 3999999999 - u\nq created asc 0 0 - 3000000001 u")
@@ -391,6 +391,13 @@ func (s *c07Stream) Send(r *hydrapb.GetByIndexStreamResponse) error {
 	s.keys = append(s.keys, r.GetTreasure().GetKey())
 	return nil
 }
+type c07ManyStream struct{ c07Stream }
+
+func (s *c07ManyStream) Send(r *hydrapb.GetByIndexStreamFromManyResponse) error {
+	s.keys = append(s.keys, r.GetTreasure().GetKey())
+	return nil
+}
+
 func (s *c07Stream) SetHeader(metadata.MD) error  { return nil }
 func (s *c07Stream) SendHeader(metadata.MD) error { return nil }
 func (s *c07Stream) SetTrailer(metadata.MD)       {}
@@ -680,7 +687,17 @@ func c07Run(in *bufio.Scanner, w *bufio.Writer) {
 					ord = hydrapb.OrderType_DESC
 				}
 				var keys []string
-				if f[7] == "s" {
+				if f[7] == "m" {
+					// GetByIndexStreamFromMany with one query: a separate copy of the read path in the gateway
+					st := &c07ManyStream{c07Stream{ctx: ctx}}
+					err := rig.GW.GetByIndexStreamFromMany(&hydrapb.GetByIndexStreamFromManyRequest{Queries: []*hydrapb.SwampQuery{{
+						IslandID: 1, SwampName: swampName, IndexType: it, OrderType: ord, From: int32(from), Limit: int32(limit),
+						FromTime: ft, ToTime: tt}}}, st)
+					if err != nil {
+						return "err " + c07ErrClass(err)
+					}
+					keys = st.keys
+				} else if f[7] == "s" {
 					st := &c07Stream{ctx: ctx}
 					err := rig.GW.GetByIndexStream(&hydrapb.GetByIndexStreamRequest{IslandID: 1, SwampName: swampName,
 						IndexType: it, OrderType: ord, From: int32(from), Limit: int32(limit), FromTime: ft, ToTime: tt}, st)
